@@ -311,10 +311,23 @@ def gen_iface(i):
         flags.append("StandardCommands")
     if i["E"]:
         flags.append("ErrorCommands")
+    if len(i["name"]) % 2 == 1:
+        flags.reverse()
     attr = "#[microscpi::interface(%s)]" % ", ".join(flags) if flags else "#[microscpi::interface]"
     o.append("    " + attr)
     o.append("    impl %s {" % ty)
-    for d in i["decls"]:
+    # Ordinary (non-command) items between the handlers, as real `impl` blocks have: the macro must
+    # number only the `#[scpi]` functions.
+    o.append("        #[allow(dead_code)]")
+    o.append("        pub const HELPER_CONST: u8 = 7;")
+    o.append("")
+    for k, d in enumerate(i["decls"]):
+        if k % 3 == 1:
+            o.append("        #[allow(dead_code)]")
+            o.append("        pub fn helper_%d(&self) -> usize {" % k)
+            o.append("            self.log.len() + %d" % k)
+            o.append("        }")
+            o.append("")
         o.append(gen_handler(d))
         o.append("")
     if o[-1] == "":
